@@ -30,3 +30,7 @@ check("C16", "other",
       "Bounded symbolic verification: Diagnostics.run executes on trees of both engines with a harness executor that returns the "
       "symbolic truth, so the real code forks; z3 decides doomed <=> no rows (with executor) / doomed => no rows (without) for all "
       "leaf contents within the slot bound.", BSV, "3/C16")
+check("C18", "other",
+      "Bounded symbolic execution of execute() and three iterations of its result over counting leaf payloads with symbolic row "
+      "values: every value-dependent path is taken; laziness / single-pass counters are path assertions, equality of repeated "
+      "iterations is decided by z3.", BSV, "3/C18")
